@@ -94,7 +94,17 @@ def run(ctx):
         for a, b in zip(range(nseg), range(1, nseg + 1)):
             if P[a] == P[b]:
                 P[b] = tuple(x + 1 for x in P[b])
-        label = rng.choice(["random", "random", "oncurve", "equidistant", "beyond", "nearvertex", "nearcorner"])
+        label = rng.choice(["random", "random", "oncurve", "equidistant", "beyond", "nearvertex", "nearcorner", "far-neartie"])
+        if label == "far-neartie" and dim == 2:
+            # a point far away whose two nearest candidates (the two ends) differ in distance by about 3e-6 * distance:
+            # far more than 1e-6, far less than any *relative* tolerance of 1e-5
+            y0, y1 = F(rng.randint(-8, -1), 2), F(rng.randint(1, 8), 2)
+            P = [(F(1), y0)] + [(F(rng.randint(-16, 0), 4), y0 + (y1 - y0) * F(k, nseg)) for k in range(1, nseg)] + [(F(1), y1)]
+            T = F(rng.choice([50, 200, 1000]))
+            delta = T * T * F(3, 10**6) / (y1 - y0) * rng.choice([1, -1])
+            pt = [T, (y0 + y1) / 2 + delta]
+            run_case(ctx, ser(dict(kind="proj", label=label, U=U, P=P, W=None, pt=pt)))
+            continue
         if label in ("nearvertex", "nearcorner") and nseg >= 2:
             # minimal distance tiny but other candidates only ~1e-3 farther: a tie filter on the wrong scale keeps them
             j = rng.randrange(1, nseg)
